@@ -208,7 +208,23 @@ func TransportPair(kind string, bufSize int) (ct, st lime.Transport, p *Pair, er
 	return
 }
 
+var portSeq uint32
+
+// freeTCPAddr returns a loopback address nobody listens on.  Ports come from a per-process slice of the range
+// below the kernel's ephemeral ports, so that neither another harness process nor an outgoing connection of
+// any process takes the port between this probe and the caller's own Listen.
 func freeTCPAddr() (*net.TCPAddr, error) {
+	for i := 0; i < 100; i++ {
+		n := atomic.AddUint32(&portSeq, 1)
+		port := 10000 + (os.Getpid()%220)*100 + int(n%100)
+		l, err := net.Listen("tcp", fmt.Sprintf("127.0.0.1:%d", port))
+		if err != nil {
+			continue
+		}
+		a := l.Addr().(*net.TCPAddr)
+		_ = l.Close()
+		return a, nil
+	}
 	l, err := net.Listen("tcp", "127.0.0.1:0")
 	if err != nil {
 		return nil, err
